@@ -155,4 +155,65 @@ theorem comVerify_ok (hG : ValidGroup G) {P : GrothPub} (hP : PubOk G P) (c r : 
   rw [if_neg (by omega)]
   simp [e]
 
+/-! ### homomorphic properties of the commitments -/
+
+theorem comVal_pow_mul (hG : ValidGroup G) {P : GrothPub} (hP : PubOk G P) (n : ℕ) (hn : n ≤ P.cg.length)
+    (m m' : ℕ → ℤ) (r r' e : ℤ) :
+    comVal G P n m r ^ e * comVal G P n m' r' =
+      comVal G P n (fun i => e * m i + m' i) (e * r + r') := by
+  have hh0 := h_ne hG P.S hP.st
+  unfold comVal
+  rw [mul_zpow, ← zpow_mul, ← Finset.prod_zpow, zpow_add₀ hh0, mul_comm r e]
+  have : ∀ i ∈ Finset.range n, gen G P i ^ (e * m i + m' i) = (gen G P i ^ m i) ^ e * gen G P i ^ m' i := by
+    intro i hi
+    have := gen_ne hG hP i (by have := Finset.mem_range.mp hi; omega)
+    rw [zpow_add₀ this, ← zpow_mul, mul_comm e]
+  rw [Finset.prod_congr rfl this, Finset.prod_mul_distrib]
+  ring
+
+theorem comVal_congr (hG : ValidGroup G) {P : GrothPub} (hP : PubOk G P) (n : ℕ) (hn : n ≤ P.cg.length)
+    (m m' : ℕ → ℤ) (r r' : ℤ) (hm : ∀ i < n, toQ G (m i) = toQ G (m' i)) (hr : toQ G r = toQ G r') :
+    comVal G P n m r = comVal G P n m' r' := by
+  unfold comVal
+  rw [zpow_toQ hG _ (h_sub P.S hP.st) hr]
+  congr 1
+  apply Finset.prod_congr rfl
+  intro i hi
+  have hi' := Finset.mem_range.mp hi
+  exact zpow_toQ hG _ (gen_sub hP i (by omega)) (hm i hi')
+
+theorem comVal_ne_zero (hG : ValidGroup G) {P : GrothPub} (hP : PubOk G P) (n : ℕ) (hn : n ≤ P.cg.length)
+    (m : ℕ → ℤ) (r : ℤ) : comVal G P n m r ≠ 0 := by
+  unfold comVal
+  apply mul_ne_zero (zpow_ne_zero _ (h_ne hG P.S hP.st))
+  rw [Finset.prod_ne_zero_iff]
+  intro i hi
+  exact zpow_ne_zero _ (gen_ne hG hP i (by have := Finset.mem_range.mp hi; omega))
+
+/-! ### the polynomial identity of the shuffle of known content, in `ZMod q` -/
+
+section
+variable {K : Type*} [Field K]
+
+/-- `F_1 = f_1 - e x`, `F_{i+1} = ((f_{i+1} - e x) F_i + f_{Δ_i}) / e` -/
+def Frec (e x : K) (f fD : ℕ → K) : ℕ → K
+  | 0 => f 0 - e * x
+  | i+1 => ((f (i + 1) - e * x) * Frec e x f fD i + fD i) * e⁻¹
+
+/-- Groth's identity: with `f_i = e m_i + d_i` and
+    `f_{Δ_i} = e (Δ_{i+1} - (m_{i+1} - x) Δ_i - a_i d_{i+1}) - Δ_i d_{i+1}`, `a_i = Π_{j ≤ i} (m_j - x)`,
+    `Δ_0 = d_0`: `F_i = e a_i + Δ_i` -/
+theorem Frec_eq (e x : K) (he : e ≠ 0) (m d Δ : ℕ → K) (hΔ0 : Δ 0 = d 0) (i : ℕ) :
+    Frec e x (fun i => e * m i + d i)
+      (fun i => e * (Δ (i + 1) - (m (i + 1) - x) * Δ i - (∏ j ∈ Finset.range (i + 1), (m j - x)) * d (i + 1))
+        - Δ i * d (i + 1)) i =
+      e * (∏ j ∈ Finset.range (i + 1), (m j - x)) + Δ i := by
+  induction i with
+  | zero => simp [Frec, hΔ0]; ring
+  | succ i ih =>
+    rw [Frec, ih, Finset.prod_range_succ (fun j => m j - x) (i + 1)]
+    field_simp
+    ring
+
+end
 end Tmcg.Args
